@@ -364,6 +364,38 @@ const PARSE_TEXTS: [&str; 40] = [
     "0", "1", "10", "1.5", ".5", "5.", "1e2", "1E2", "1e+2", "1e-2", "1.5e3", "0.1", "0x10", "0XfF", "0xABCDEF", "0b101", "0B11", "1_000", "1_0.5_0", "0x_FF", "0b1_0", "1e1_0", "9007199254740993", "18446744073709551615", "18446744073709551616", "1e308", "1e309", "5e-324", "2.2250738585072014e-308", "0.30000000000000004", "123456789012345678901234567890", "0x7fffffffffffffff", "0xffffffffffffffff", "0b1111111111111111111111111111111111111111111111111111111111111111", "1e-400", "0e0", "00012", "1__0", "3.14159265358979323846", "4.35",
 ];
 
+const NEG_CONTEXTS: usize = 8;
+
+/// a (possibly negative / non-finite) number literal node next to other tokens
+fn check_negative_in_context(v: f64, g: G, c: usize) -> Result<(), String> {
+    use dn::*;
+    let lit = || Expression::from(v);
+    let x = || Expression::identifier("x");
+    let reference_lit = format!("({})", lua_number_literal(v));
+    let (e, reference): (Expression, String) = match c {
+        0 => (BinaryExpression::new(BinaryOperator::Concat, lit(), Expression::from(StringExpression::from_value("s"))).into(), format!("{} .. \"s\"", reference_lit)),
+        1 => (BinaryExpression::new(BinaryOperator::Concat, Expression::from(StringExpression::from_value("s")), lit()).into(), format!("\"s\" .. {}", reference_lit)),
+        2 => (BinaryExpression::new(BinaryOperator::Minus, x(), lit()).into(), format!("x - {}", reference_lit)),
+        3 => (BinaryExpression::new(BinaryOperator::Minus, lit(), x()).into(), format!("{} - x", reference_lit)),
+        4 => (BinaryExpression::new(BinaryOperator::Caret, lit(), Expression::from(2.0)).into(), format!("{} ^ 2", reference_lit)),
+        5 => (UnaryExpression::new(UnaryOperator::Minus, lit()).into(), format!("-{}", reference_lit)),
+        6 => (BinaryExpression::new(BinaryOperator::Concat, lit(), lit()).into(), format!("{} .. {}", reference_lit, reference_lit)),
+        _ => (TableExpression::new(vec![TableEntry::from_value(lit()), TableEntry::from_value(BinaryExpression::new(BinaryOperator::Plus, x(), lit()))]).into(), format!("{{ {}, x + {} }}", reference_lit, reference_lit)),
+    };
+    let block = Block::default().with_last_statement(ReturnStatement::one(e));
+    let out = catch(|| write(&block, g, 80)).map_err(|p| format!("PANIC in {:?} generator: {}", g, p))?;
+    let run = |text: &str| -> Result<Outcome, String> {
+        let p = luasyn::parse(&format!("local x = 7\n{}", text), Mode::Luau).map_err(|e| format!("not valid Luau: {} (line {})", e.msg, e.line))?;
+        Ok(luaref::run(&p.block, &crate::behave::cfg(Dialect::Luau)))
+    };
+    let got = run(&out).map_err(|e| format!("the {:?} generator writes the number {} in context {} as text that is {}\n--- output\n{}", g, v, c, e, out))?;
+    let want = run(&format!("return {}\n", reference)).map_err(|e| format!("harness: reference {}", e))?;
+    if got != want {
+        return Err(format!("the {:?} generator writes `{}` (the number {} as one literal) as text that evaluates differently\n--- output\n{}\n--- reference\nreturn {}", g, reference, v, out, reference));
+    }
+    Ok(())
+}
+
 /// programs holding one literal spelling in a few positions
 fn literal_texts() -> Vec<String> {
     let bodies = [
@@ -463,6 +495,20 @@ fn run(ctx: &RunCtx) {
             Ok(None) => CaseResult::Discard("not a literal for both parsers"),
             Ok(Some(())) => CaseResult::Pass { nontrivial: Some(hash_str(text)) },
             Err(m) => CaseResult::Fail(Failure::new(m, json!({"kind": "parse_number", "text": text}))),
+        }
+    });
+    // negative and non-finite numbers are single literals in darklua's tree (rules leave them behind):
+    // next to operators, as index, call argument, in a table, the written text must still evaluate to
+    // the same thing as the fully parenthesised reference
+    let negatives: [f64; 9] = [-0.0, -1.0, -2.5, -10.0, -1e300, -5e-324, -0.1, f64::NEG_INFINITY, f64::INFINITY];
+    ctx.enumerate("negative_numbers_in_context", negatives.len() as u64 * 3 * NEG_CONTEXTS as u64, |i, st| {
+        let g = GENS[(i % 3) as usize];
+        let c = ((i / 3) % NEG_CONTEXTS as u64) as usize;
+        let v = negatives[(i / (3 * NEG_CONTEXTS as u64)) as usize];
+        st.class("negative_number_in_context");
+        match check_negative_in_context(v, g, c) {
+            Ok(()) => CaseResult::Pass { nontrivial: Some(hash_str(&format!("{}{:?}{}", v, g, c))) },
+            Err(m) => CaseResult::Fail(Failure::new(m, json!({"kind": "negative_context", "bits": format!("{:016x}", v.to_bits()), "generator": format!("{:?}", g), "context": c}))),
         }
     });
     // literal SOURCE texts: read by darklua's parser, written again by the dense and readable
@@ -595,6 +641,10 @@ fn replay(v: &Value) -> Result<(), String> {
             check_number(&spec, g, span, ctx).map(|_| ())
         }
         Some("parse_number") => check_parse_number(v.get("text").and_then(|s| s.as_str()).ok_or("malformed C13 replay")?).map(|_| ()),
+        Some("negative_context") => {
+            let v = u64::from_str_radix(v.get("bits").and_then(|s| s.as_str()).ok_or("malformed C13 replay")?, 16).map(f64::from_bits).map_err(|_| "malformed C13 replay")?;
+            check_negative_in_context(v, g, ctx)
+        }
         Some("literal_text") => {
             let text = v.get("text").and_then(|s| s.as_str()).ok_or("malformed C13 replay")?;
             let g2 = if matches!(g, G::Readable) { crate::props::c02::Gen::Readable } else { crate::props::c02::Gen::Dense };
